@@ -62,6 +62,8 @@ def _to_owned(it, a, c): return dup(deref(a[0]))
 def struct_eq(it, x, y):
     """structural equality as a python bool / z3 Bool (no forking)."""
     x = deref(x); y = deref(y)
+    if isinstance(x, Str) != isinstance(y, Str):
+        x = _bytes_to_str(x); y = _bytes_to_str(y)
     if isinstance(x, Str) or isinstance(y, Str):
         if isinstance(x, Agg) and x.name.endswith('Addr'): x = x.fields[0]
         if isinstance(y, Agg) and y.name.endswith('Addr'): y = y.fields[0]
@@ -94,6 +96,13 @@ def struct_eq(it, x, y):
         if z3.is_true(r): return True
         if z3.is_false(r): return False
     return r
+
+
+def _bytes_to_str(v):
+    if isinstance(v, (VecV, Agg)) and not (isinstance(v, Agg) and v.name == 'cosmwasm_std::Addr'):
+        items = v.items if isinstance(v, VecV) else v.fields
+        if all(isinstance(b, int) and not isinstance(b, bool) for b in items): return Str(bytes(items).decode('latin1'))
+    return v
 
 
 @defmodel('std::cmp::PartialEq::eq')
@@ -730,8 +739,12 @@ def _copy_from_slice(it, a, c):
     d[:] = [dup(x) for x in s]; return UNIT()
 @model('core::slice::<impl [T]>::concat', 'std::slice::<impl [T]>::concat')
 def _concat(it, a, c):
+    parts = [deref(x) for x in seq(a[0])]
+    if parts and all(isinstance(x, Str) for x in parts):          # byte strings of text (denoms, addresses)
+        if all(x.s is not None for x in parts): return Str(''.join(x.s for x in parts))
+        return Str(None, sym=it.ctx.fresh('concat'), parts=[q for x in parts for q in ([x.s] if x.s is not None else (x.parts or [x]))])
     out = []
-    for x in seq(a[0]): out.extend(dup(y) for y in seq(x))
+    for x in parts: out.extend(dup(y) for y in seq(x))
     return VecV(out)
 
 
